@@ -327,6 +327,29 @@ def stereo_queries(ctx):
                               {'smarts': text, 'molecule': target})
 
 
+    # cis/trans marks combined with ring / non-ring marks on the same double bond
+    targets = [('C/C=C/C', False, False), ('C/C=C\\C', True, False), ('CC=CC', None, False), ('C1CCC/C=C/CC1', False, True),
+               ('C1CCC/C=C\\CC1', True, True), ('C1CCCC=CCC1', None, True), ('CC/C=C/C1CC1', False, False), ('C1CCCCC/C=C\\CCC1', True, True)]
+    for target, cis, in_ring in targets:
+        t = smiles(target)
+        for ringmark, qring in ((';@', True), (';!@', False), ('', None)):
+            for m1, m2 in (('/', '/'), ('/', '\\'), ('\\', '\\'), ('\\', '/')):
+                text = '[C]%s[C]=%s[C]%s[C]' % (m1, ringmark, m2)
+                qcis = m1 != m2
+                ctx.count('stereo.queries')
+                ctx.count('stereo.ring-marked-bond-queries')
+                ctx.evaluations += 1
+                try:
+                    hit = smarts(text).is_substructure(t)
+                except Exception as e:
+                    ctx.violation('stereo-query-raises/%s' % type(e).__name__, '%s on %s: %r' % (text, target, e), {'smarts': text, 'molecule': target})
+                    continue
+                want = cis is not None and cis == qcis and (qring is None or qring == in_ring)
+                if hit != want:
+                    ctx.violation('stereo-bond-mark-mismatch' + ('/with-ring-mark' if ringmark else ''),
+                                  '%s on %s: matched %r, expected %r' % (text, target, hit, want), {'smarts': text, 'molecule': target})
+
+
 # ---- language ----------------------------------------------------------------------------------------------------------------
 def gen_valid_atom(rng):
     """bracket atom from the documented subset together with the fields it must parse to"""
